@@ -960,8 +960,12 @@ def gen_equiv(rng, idx):
             b = header(case) + "module\n" + cfg_b + "init\n" + pre + "script " + json.dumps(["cv", "load", arg]) + "\n" + post + "mark go\n" + step_block(case, K)
             return dict(kind=kind, idx=idx, sub=("prefix" if arg == "PREFIX" else "filename") + rsub, scn={"W": w, "A": a, "B": b}, mark="go", case=case, tol=rtol, used=used)
         a = header(case) + "module\n" + cfg + "init\nloadstr <<EOS\nSTATE_TEXTEOS\nmark go\n" + step_block(case, K)
-        b = header(case) + "module\n" + cfg_b + "init\n" + pre + "script [\"cv\", \"loadfromstring\", STATE_JSON]\n" + post + "mark go\n" + step_block(case, K)
-        return dict(kind=kind, idx=idx, sub="string" + rsub, scn={"W": w, "A": a, "B": b}, mark="go", case=case, tol=rtol, used=used)
+        # half of the cases: the script first tries to load a file that does not exist (error reported, host carries on)
+        badload = rng.random() < 0.5
+        bl = "script [\"cv\", \"load\", \"/nonexistent-c20/no_such_state\"]\nclearerr\n" if badload else ""
+        b = header(case) + "module\n" + cfg_b + "init\n" + pre + bl + "script [\"cv\", \"loadfromstring\", STATE_JSON]\n" + post + "mark go\n" + step_block(case, K)
+        return dict(kind=kind, idx=idx, sub="string" + rsub + (":after_failed_load" if badload else ""), scn={"W": w, "A": a, "B": b}, mark="go", case=case, tol=rtol, used=used,
+                    badload=badload)
     if kind == "delete":
         # A: everything defined, some objects deleted through the script; B: those objects never defined
         noext = [cv for cv in case["cvs"] if not cv["ext"]]
@@ -1100,6 +1104,8 @@ def check_equiv(c, job, res, sps):
     # the operations themselves must have succeeded on both paths
     for k, evx in (("A", eva), ("B", evb)):
         for e in evx:
+            if job.get("badload") and e["ev"] == "script" and "Error loading state file" in str(e.get("res")):
+                continue          # the deliberately failing load
             if e["ev"] in ("config", "script", "load", "init") and (e.get("rc") or e.get("err")):
                 other = evb if k == "A" else eva
                 both = any(o["ev"] in ("config", "script", "load", "init") and (o.get("rc") or o.get("err")) for o in other)
@@ -1122,7 +1128,7 @@ def check_equiv(c, job, res, sps):
     for x, y in zip(sa, sb):
         d = first_diff(x, y, tol=job.get("tol", 0.0))
         if d:
-            viol("equiv:%s" % kind + (":reordered" if job.get("tol") else "") + (":used_instance" if "used_instance" in job["sub"] else ""), "step %s: %s" % (x.get("it"), d))
+            viol("equiv:%s" % kind + (":reordered" if job.get("tol") else "") + (":used_instance" if "used_instance" in job["sub"] else "") + (":after_failed_load" if job.get("badload") else ""), "step %s: %s" % (x.get("it"), d))
             return False
     c.bump("equiv_steps_compared", len(sa))
     return True
